@@ -19,7 +19,7 @@ def _markers(ctx: Ctx, mod: Mod):
     for q in FORMATTERS:
         fn = mod.fn(q)
         ctx.R.saw(mod, q)
-        for s in fn.body:
+        for s in walk_scope(fn):
             if isinstance(s, ast.Assign) and isinstance(s.targets[0], ast.Name) and isinstance(s.value, ast.IfExp) and "ascii_only" in norm(s.value.test):
                 out.append((q, s.targets[0].id, s.value, s))
             elif isinstance(s, ast.Assign) and isinstance(s.targets[0], ast.Name) and isinstance(s.value, ast.Constant) and isinstance(s.value.value, str) \
@@ -738,7 +738,8 @@ def fmt10_11(ctx: Ctx) -> None:
     for q, leaf_mark in (("Stack._format", "start_leaf"), ("Stack.format_flat", "Target of innermost frame")):
         fn = mod.fn(q)
         for what, attr, needle in (("leaf", "self.leaf", leaf_mark), ("error", "self.error", "self._format_error()")):
-            sites = [st for st in ast.walk(fn) if isinstance(st, ast.Expr) and isinstance(st.value, ast.Call) and norm(st.value.func) in ("lines.append", "lines.extend") and needle in norm(st)]
+            sites = [st for st in ast.walk(fn) if isinstance(st, ast.Expr) and isinstance(st.value, ast.Call) and norm(st.value.func) in ("lines.append", "lines.extend")
+                     and (needle in norm(st) or (what == "leaf" and "self.leaf" in norm(st)) or (what == "error" and "_format_error" in norm(st)))]
             if not sites:
                 ctx.R.fail("FMT-11", mod, fn, f"{q} never renders the {what}: it cannot be recovered from the text", construct=f"{q}: {what} line missing")
                 continue
@@ -912,6 +913,122 @@ def fmt13(ctx: Ctx) -> None:
     ctx.R.expect_min("FMT-13", 3)
 
 
-C18 = [fmt1, fmt2, fmt3, fmt5, fmt7, fmt10_11]
+def fmt14(ctx: Ctx) -> None:
+    """FMT-14 rendering is a function of the tree and of *all* format options: a formatting method that stores what it rendered
+    on the object (a memo) must key it by every field of FormatOptions -- the options travel down to nested contexts and stacks
+    through `opts`, so a field the method does not read itself (show_hidden_frames in Frame._format) still changes its output.
+    Today no formatting method stores anything on self."""
+    mod = ctx.P.mod("_types")
+    fo = mod.fn("FormatOptions")
+    fields = [s_.target.id for s_ in fo.body if isinstance(s_, ast.AnnAssign) and isinstance(s_.target, ast.Name)]
+    if len(fields) < 3:
+        raise AnalysisError(f"FMT-14: FormatOptions fields {fields}")
+
+    def findings(fn: ast.AST) -> List[Tuple[ast.AST, List[str]]]:
+        out = []
+        params = [a.arg for a in fn.args.args]
+        optv = next((p_ for p_ in params if p_ in ("opts", "options")), None)
+        for st in ast.walk(fn):
+            tg = None
+            if isinstance(st, ast.Assign) and len(st.targets) == 1:
+                tg = st.targets[0]
+            elif isinstance(st, ast.AugAssign):
+                tg = st.target
+            if tg is None:
+                continue
+            key = None
+            if isinstance(tg, ast.Subscript) and isinstance(tg.value, ast.Attribute) and norm(tg.value.value) == "self":
+                key = tg.slice
+            elif isinstance(tg, ast.Attribute) and norm(tg.value) == "self":
+                key = ast.Tuple(elts=[], ctx=ast.Load())
+            else:
+                continue
+            # resolve the key through a local assignment
+            if isinstance(key, ast.Name):
+                src = [a_.value for a_ in ast.walk(fn) if isinstance(a_, ast.Assign) and len(a_.targets) == 1 and norm(a_.targets[0]) == key.id]
+                if len(src) == 1:
+                    key = src[0]
+            used = {x.attr for x in ast.walk(key) if isinstance(x, ast.Attribute) and optv is not None and norm(x.value) == optv}
+            if optv is not None and any(isinstance(x, ast.Name) and x.id == optv for x in ast.walk(key) if not isinstance(mod_parent(x), ast.Attribute)):
+                used = set(fields)  # keyed by the options object as a whole
+            missing = [f_ for f_ in fields if f_ not in used]
+            out.append((st, missing))
+        return out
+
+    parent = {}
+    def mod_parent(x):
+        return parent.get(id(x))
+
+    n = 0
+    example = ast.parse("def _format(self, opts):\n    key = (opts.ascii_only, opts.show_contexts)\n    self._rendered[key] = lines\n").body[0]
+    for a_ in ast.walk(example):
+        for ch in ast.iter_child_nodes(a_):
+            parent[id(ch)] = a_
+    ex = findings(example)
+    ctx.R.positive_example("FMT-14", bool(ex and ex[0][1] == ["show_hidden_frames"]))
+    for q, fn in mod.defs.items():
+        if not isinstance(fn, ast.FunctionDef) or not (q.split(".")[-1].startswith("_format") or q.split(".")[-1] in ("format", "format_flat", "__str__")):
+            continue
+        for a_ in ast.walk(fn):
+            for ch in ast.iter_child_nodes(a_):
+                parent[id(ch)] = a_
+        for st, missing in findings(fn):
+            n += 1
+            if missing:
+                ctx.R.fail("FMT-14", mod, st, f"{q} keeps what it rendered on the object (`{norm(st)[:60]}`) keyed without {missing}: formatting the same tree again with a different value of "
+                           f"{' / '.join(missing)} replays the text of the first call for everything below this node (hidden contexts and nested stacks are decided through `opts` further down)",
+                           construct=f"{q}: render memo keyed without {missing}")
+            else:
+                ctx.R.undecided("FMT-14", f"{q} memoises its output keyed by all format options; whether the tree can change in between is not decided")
+    if n == 0:
+        ctx.R.ok("FMT-14", "no formatting method stores rendered output on the object")
+
+
+def fmt15(ctx: Ctx) -> None:
+    """FMT-15 with ascii_only the output is pure ASCII (given ASCII names / source / reprs): every string literal with a
+    non-ASCII character in the formatting methods of _types (bodies, default arguments, f-string parts) is the alternative of a
+    choice on opts.ascii_only -- `<ascii> if opts.ascii_only else <unicode>` or a statement under `if not opts.ascii_only`"""
+    mod = ctx.P.mod("_types")
+    n = 0
+    for q, fn in mod.defs.items():
+        if not isinstance(fn, ast.FunctionDef):
+            continue
+        last = q.split(".")[-1]
+        if not (last.startswith("_format") or last in ("format", "format_flat", "__str__") or last.startswith("_mark") or last.startswith("_render")):
+            continue
+        for c in ast.walk(fn):
+            if not (isinstance(c, ast.Constant) and isinstance(c.value, str) and not c.value.isascii()):
+                continue
+            if isinstance(mod.parent_of(c), ast.Expr):
+                continue  # docstring
+            n += 1
+            ok = False
+            child = c
+            for a_ in mod.ancestors(c):
+                if a_ is fn:
+                    break
+                if isinstance(a_, ast.IfExp) and "ascii_only" in norm(a_.test):
+                    neg = isinstance(a_.test, ast.UnaryOp) and isinstance(a_.test.op, ast.Not)
+                    branch = a_.body if neg else a_.orelse
+                    if child is branch or any(child is x for x in ast.walk(branch)):
+                        ok = True
+                    break
+                if isinstance(a_, ast.If) and "ascii_only" in norm(a_.test):
+                    neg = isinstance(a_.test, ast.UnaryOp) and isinstance(a_.test.op, ast.Not)
+                    branch = a_.body if neg else a_.orelse
+                    if any(child is x or any(child is y for y in ast.walk(x)) for x in branch):
+                        ok = True
+                    break
+                child = a_
+            if ok:
+                ctx.R.ok("FMT-15", f"{q}: {c.value!r} only when not ascii_only")
+            else:
+                ctx.R.fail("FMT-15", mod, c, f"{q}: the non-ASCII literal {c.value!r} is not the alternative of a choice on opts.ascii_only: it is emitted with ascii_only=True as well "
+                           "(the output is then neither pure ASCII nor the marker-for-marker translation of the Unicode output)", construct=f"{q}: unconditional non-ASCII literal {c.value!r}")
+    if n < 7:
+        raise AnalysisError(f"FMT-15: {n} non-ASCII literals found in the formatting methods (>= 7 confirmed by hand)")
+
+
+C18 = [fmt1, fmt2, fmt3, fmt5, fmt7, fmt10_11, fmt14, fmt15]
 C19 = [fmt2, fmt4, fmt6, fmt8, fmt9, fmt12, fmt13]
 C20 = [cont7, mode_rules, mode4, ref1]
